@@ -271,6 +271,20 @@ check('C11',
       'machine-checked proof in Coq (Z/Q/list model incl. all interleavings of per-call handles) + correspondence run (vm_compute) + independent-decoder monitor',
       'DESIGN.md 5 C11')
 
+check('C09',
+      'PARTIAL by nature. Coq theorems (Props/C09.v, axiom-free) about Model/Chunk.v - the part of the property that is logic: for every '
+      'split of the sample-shape columns into blocks and every schedule that runs each block\'s pure task at least once (any order, '
+      'repetitions allowed), assembling the per-block results by block index equals the unchunked result of any column-separable '
+      'operation; element-wise operations may also be chunked along time; building the graph runs no task and computing runs exactly the '
+      'scheduled ones. What decides the property for the real library is the correspondence run: every public operation on a NumPy-backed '
+      'signal and on the same signal backed by a Dask array with random chunk layouts, computed under the synchronous, threaded and '
+      'multiprocess schedulers - same type, metadata, shape, dtype, values - with the result still Dask-backed and a sentinel layer under '
+      'the input proving that no input block was computed while the result graph was built.',
+      'Trusted / not modelled: dask graph construction, optimisation and schedulers; thread safety of the NumPy / SciPy kernels; the '
+      'theorems say why chunking CAN be transparent for a column-separable operation, not that dask implements it.',
+      'machine-checked proof in Coq of the chunk / schedule model + decisive NumPy-vs-Dask correspondence run with laziness sentinel',
+      'DESIGN.md 5 C09')
+
 ALL = [f'C{i:02d}' for i in range(1, 21)]
 
 def main():
